@@ -1090,7 +1090,7 @@ def rule_r4(repo: Repo, res: Result) -> None:
             verdict, detail = c04_model.hierarchy_on_models(repo, g, p[1], p[2], p[3] if len(p) > 3 else None)
     g_ = repo.cls(NXGRAPH, "NetworkxGraph")
     init_ = g_.methods.get("__init__")
-    tag = f"{init_.relpath if init_ is not None else NXGRAPH}::NetworkxGraph::nodes and hierarchy edges on model inputs"
+    tag = f"{init_.relpath if init_ is not None else NXGRAPH}::NetworkxGraph::nodes, hierarchy edges and import edges on model inputs"
     wh = where(init_, init_.node) if init_ is not None else ""
     if und and not bad and verdict is not None:
         # the shape could not be read; its meaning on the model inputs decides
@@ -1110,7 +1110,9 @@ def rule_r4(repo: Repo, res: Result) -> None:
     res.floors.update(scratch.floors)
     res.undecided += scratch.undecided
     res.observations += scratch.observations
-    if und and not bad and detail is not None:
+    if verdict is False:
+        res.add("C04.R4", tag, False, detail, wh, kind="decision-table")  # a concrete input on which the built graph is wrong
+    elif und and not bad and detail is not None:
         res.undecide("C04.R4", tag, f"the construction could not be tabulated on model inputs either: {detail[:240]}", wh)
 
 
